@@ -421,6 +421,10 @@ def replay_inner(path, specs):
     same_digest = res.get("digest") == data.get("expect_digest")
     for e in res.get("events", [])[-60:]:
         print("  ev", json.dumps(e, default=repr))
+    for t in res.get("thread_dump", []):
+        print("  thread", json.dumps(t, default=repr))
+    for r in res.get("log_tail", []):
+        print("  log", json.dumps(r, default=repr))
     for v in res.get("violations", []):
         print("  violation", v["key"], "--", v["msg"])
     if res.get("harness_error"):
